@@ -2,6 +2,7 @@ import TangeloModel.Backend
 import TangeloProofs.Lemmas.OpInverse
 import TangeloProofs.Lemmas.Isometry
 import TangeloProofs.CycLaws
+import TangeloProofs.Lemmas.SimRefines
 /-!
 # C01 — backend simulation matches the documented gate semantics
 
@@ -145,6 +146,42 @@ theorem normSq_zero_state (n : Nat) : normSq n (zeroState n) = 1 := by
 theorem prepared_state_normalised (n : Nat) (ops : List Op) (h : ∀ o ∈ ops, o.inReg n) :
     normSq n (semOps cycConsts ops (zeroState n)) = 1 := by
   rw [circuit_isometry_exec n ops h, normSq_zero_state]
+
+/-! ## the executable simulator refines the specification -/
+
+theorem basisSV_zero_state (n : Nat) : basisSV n 0 = tabulate n (zeroState n) := by
+  simp only [basisSV, tabulate, zeroState]
+  congr 1
+  funext idx
+  by_cases h0 : idx.val = 0
+  · have : (List.range n).all (fun q => !(bitsOf idx.val) q) = true := by rw [h0]; simp [bitsOf]
+    rw [if_pos h0, if_pos this]
+  · have : (List.range n).all (fun q => !(bitsOf idx.val) q) = false := by
+      by_contra hc
+      have hall : (List.range n).all (fun q => !(bitsOf idx.val) q) = true := by simpa using hc
+      apply h0
+      apply Nat.eq_of_testBit_eq
+      intro q
+      by_cases hq : q < n
+      · have := List.all_eq_true.mp hall q (List.mem_range.mpr hq)
+        simpa [bitsOf] using this
+      · have hq' : n ≤ q := by omega
+        have p : 2 ^ n ≤ 2 ^ q := Nat.pow_le_pow_right (by decide) hq'
+        have hlt := idx.isLt
+        rw [Nat.testBit_lt_two_pow (by omega)]; simp
+    rw [if_neg h0, this]; rfl
+
+/-- **what the model driver computes is the specified state**: for every circuit inside an `n`-qubit register, the
+    array simulator started from |0…0⟩ returns the table of `semOps` applied to |0…0⟩ - every theorem about `semOps`
+    (C01, C06, C09, C10, C20 …) is a theorem about the state vectors the correspondence compares with the backends -/
+theorem driver_state_is_specified (n : Nat) (ops : List Op) (h : ∀ o ∈ ops, o.inReg n) :
+    simOps n ops (basisSV n 0) = tabulate n (semOps cycConsts ops (zeroState n)) := by
+  rw [basisSV_zero_state, simOps_tabulate n ops (fun o ho => (h o ho).2)]
+
+/-- the same from a user-supplied initial state -/
+theorem driver_state_is_specified_init (n : Nat) (ops : List Op) (h : ∀ o ∈ ops, o.inReg n) (ψ : State Cyc) :
+    simOps n ops (tabulate n ψ) = tabulate n (semOps cycConsts ops ψ) :=
+  simOps_tabulate n ops (fun o ho => (h o ho).2) ψ
 
 /-! ## non-vacuity -/
 example : intToBinstr .lsqFirst 4 3 true = [true, false, false] := by decide
